@@ -577,6 +577,43 @@ func runC17(c *Ctx) {
 		}
 		c.Case(enc.L(enc.I(2), enc.L(fts...), enc.L(rows...)))
 	}
+	// a label selector with more than twelve requirements, two of them on one
+	// key, built twice from the same value (known finding D14: apimachinery sorts
+	// the requirements by key with an unstable sort once there are more than
+	// twelve, after iterating a map, and Equals compares the sorted lists)
+	{
+		big := &LSel{}
+		for k := 1; k <= 8; k++ {
+			big.Labels = append(big.Labels, KV{K: k, V: 1})
+		}
+		for k := 1; k <= 4; k++ {
+			big.Exprs = append(big.Exprs, Expr{Key: k, Op: 2}, Expr{Key: k, Op: 1, Vals: []int{3}})
+		}
+		bf := &Filt{Tag: FLabelSelector, LSel: big}
+		unequal, pairs := 0, 0
+		first := bf.Go()
+		for k := 0; k < 40; k++ {
+			other := bf.Go()
+			pairs++
+			if !goEqual(first, other) {
+				unequal++
+			}
+			// soundness is untouched: both accept the same objects
+			for j, o := range gos {
+				a, _ := goAccept(first, o)
+				b, _ := goAccept(other, o)
+				if a != b {
+					c.Violation("", "a label selector built twice from the same value accepts different objects", map[string]interface{}{"filter": bf.Enc().String(), "obj": objs[j].Enc().String()})
+					break
+				}
+			}
+		}
+		c.Rep.Evaluations += pairs
+		if unequal > 0 {
+			c.KnownFinding("D14-large-selector-built-twice-unequal", fmt.Sprintf("a LabelSelector filter with more than twelve requirements, two of them on one key, built twice from the same selector compares unequal (%d of %d pairs): comparable filters built twice from the same arguments are not always equal", unequal, pairs),
+				map[string]interface{}{"filter": bf.Enc().String(), "unequal_pairs": unequal, "pairs": pairs})
+		}
+	}
 	// the accept vectors are also checked against the model
 	acceptMatrix(c, terms, objs)
 	c.Rep.Stats["terms"] = len(terms)
